@@ -202,6 +202,26 @@ func init() {
 		in.clockForce = in.asTerm(a[0])
 		return nil, true
 	})
+	vf("vfAnd", func(in *Interp, th *Thread, fn *ssa.Function, a []Value) (Value, bool) {
+		return in.ts.And(in.asTerm(a[0]), in.asTerm(a[1])), true
+	})
+	vf("vfOr", func(in *Interp, th *Thread, fn *ssa.Function, a []Value) (Value, bool) {
+		return in.ts.Or(in.asTerm(a[0]), in.asTerm(a[1])), true
+	})
+	vf("vfBytesEq", func(in *Interp, th *Thread, fn *ssa.Function, a []Value) (Value, bool) {
+		x, y := a[0].(Slice), a[1].(Slice)
+		if (x.Arr != nil && x.Arr.Num != nil) || (y.Arr != nil && y.Arr.Num != nil) {
+			return in.strEq(in.bytesToStr(x), in.bytesToStr(y)), true
+		}
+		if x.Len != y.Len {
+			return in.ts.False, true
+		}
+		r := in.ts.True
+		for i := 0; i < x.Len; i++ {
+			r = in.ts.And(r, in.ts.Eq(x.Arr.V[x.Off+i].(*Term), y.Arr.V[y.Off+i].(*Term)))
+		}
+		return r, true
+	})
 	vf("vfIsSymbolic", func(in *Interp, th *Thread, fn *ssa.Function, a []Value) (Value, bool) {
 		return in.ts.True, true
 	})
@@ -511,3 +531,10 @@ func init() {
 }
 
 var _ = types.Typ
+
+func (in *Interp) bytesToStr(x Slice) Str {
+	if x.Arr != nil && x.Arr.Num != nil {
+		return Str{Num: x.Arr.Num}
+	}
+	return in.mkStr(in.bytesOf(x))
+}
